@@ -34,7 +34,7 @@ ASSUMPTIONS = [
     "comparisons against undefined bare identifiers are not generated (the simplifier folds an undefined operand to n even inside a relation)",
     "clause (1) is one-directional as the statement is: documenting an unreachable option is not a violation",
 ]
-BUDGET = {"quick": {"examples": 3200}, "thorough": {"examples": 60000, "deadline_s": 1500}}
+BUDGET = {"quick": {"examples": 3200}, "thorough": {"examples": 600000, "deadline_s": 900}}
 
 CFG = gen.cfg(max_syms=7, min_syms=3, p_macro=0, p_env=0, p_source=0, p_menu=25, p_if=20, p_choice=14, p_set=8, p_wset=8, p_select=18, p_imply=10, p_prompt=93, p_prompt_cond=40, p_depends=60, p_help=10, p_warning=0, float=False, p_prefer=75, p_dup_menu_title=35, p_menu_dep=50,
               deprioritized=("IDF_TARGET", "IDF_TARGET_CHIPA", "IDF_TARGET_CHIPB", "VK_CAP_A", "VK_CAP_B", "VK_CAP_N"))
